@@ -18,10 +18,9 @@
 (*                    digest unchanged                                          *)
 (*   clone-abs        the clone's content is SpecClone of the original's        *)
 (*   clone-orig       clone() leaves the original unchanged                     *)
-(*   eq / eq-rev      `==` says AbsEq of the two contents                       *)
-(*   kind             AbsEq contents have equal kinds                           *)
-(*   hash, proj       after equal histories (sync) equal contents have equal    *)
-(*                    hashes and equal full projections                         *)
+(*   eq / eq-rev, kind, hash, proj   right after clone() and after equal        *)
+(*                    histories (sync) the two problems are `==` (both ways),   *)
+(*                    have equal kinds, equal hashes and equal full projections *)
 (* Every deviation is reported at the call where it happens: the judge then     *)
 (* continues from the *recorded* contents, so one defect is reported once and   *)
 (* does not hide what follows.  Verdicts are total (PrintT of every failing     *)
@@ -48,16 +47,20 @@ JudgeOne(who, pre, e, applied, res, rabs) ==
             exp == SpecStep(pre, e, ok)
         IN (IF ok # (why = "") THEN {<<"acc-" \o who, <<IF why = "" THEN "spec-accepts" ELSE why, res>>>>} ELSE {})
            \cup (IF rabs # exp THEN {<<"abs-" \o who, DiffK(exp, rabs)>>} ELSE {})
-\* the pair after a call
+\* the pair after a call.  The property speaks about the clone itself and about equal histories:
+\* the pair is judged while sy holds (every call since the clone was made on both problems with the
+\* same outcome, and no clause has failed so far -- after a deviation the premise "the clone was an
+\* equal copy" is gone and only the per-problem clauses are judged)
 JudgePair(k, ao, ac, r, sy) ==
    LET eqs == AbsEq(k, ao, ac)
        def == EqDefined(k, ao) /\ EqDefined(k, ac)
-   IN (IF ~def THEN {<<"U", <<>>>>}
-       ELSE (IF r.eq # TF(eqs) THEN {<<"eq", <<r.eq, "want=" \o TF(eqs)>>>>} ELSE {})
-            \cup (IF r.eqr # TF(eqs) THEN {<<"eq-rev", <<r.eqr, "want=" \o TF(eqs)>>>>} ELSE {}))
-      \cup (IF eqs /\ r.keq # "T" THEN {<<"kind", <<r.keq>>>>} ELSE {})
-      \cup (IF def /\ sy /\ eqs /\ r.heq # "T" THEN {<<"hash", <<r.heq>>>>} ELSE {})
-      \cup (IF sy /\ eqs /\ r.do # r.dc THEN {<<"proj", <<>>>>} ELSE {})
+   IN IF ~(sy /\ eqs) THEN {}
+      ELSE IF ~def THEN {<<"U", <<>>>>}
+      ELSE (IF r.eq # "T" THEN {<<"eq", <<r.eq>>>>} ELSE {})
+           \cup (IF r.eqr # "T" THEN {<<"eq-rev", <<r.eqr>>>>} ELSE {})
+           \cup (IF r.keq # "T" THEN {<<"kind", <<r.keq>>>>} ELSE {})
+           \cup (IF r.heq # "T" THEN {<<"hash", <<r.heq>>>>} ELSE {})
+           \cup (IF r.do # r.dc THEN {<<"proj", <<>>>>} ELSE {})
 
 TraceInit == /\ tid \in DOMAIN Traces /\ l = 1
              /\ o = ToP(Traces[tid].base) /\ c = ToP(Traces[tid].base)
@@ -90,7 +93,8 @@ TraceNext ==
                              \cup (IF ~cloned \/ r.e \notin Edits(k) \/ r.tgt \notin {"both", "o", "c"}
                                    THEN {<<"schema", <<"post">>>>} ELSE {})
                    /\ cloned' = cloned
-         /\ o' = ao /\ c' = (IF r.tgt = "pre" THEN c ELSE ac) /\ sync' = sy /\ dg' = <<r.do, r.dc>>
+         /\ o' = ao /\ c' = (IF r.tgt = "pre" THEN c ELSE ac)
+         /\ sync' = (sy /\ bad' \subseteq {<<"U", <<>>>>}) /\ dg' = <<r.do, r.dc>>
    /\ l' = l + 1 /\ tid' = tid
 TraceSpec == TraceInit /\ [][TraceNext]_tvars
 
